@@ -1,3 +1,392 @@
 package main
 
-func runC06proc(c *runCtx) {}
+import (
+	"database/sql"
+	"encoding/json"
+	"fmt"
+	"math/rand"
+	"path/filepath"
+	"strings"
+	"sync"
+	"time"
+
+	"github.com/resonatehq/resonate/internal/verifh/vh"
+)
+
+// C06 tier (ii): the real server process is killed (SIGKILL) at points chosen
+// by operation index — right after the k-th acknowledgement, or while the
+// k-th request is in flight — and restarted on the same database file. An
+// acknowledged-write ledger kept by the client is compared with the database;
+// the cross-table atomicity invariants are evaluated on the restarted state;
+// background processing must resume. Finally the server is stopped with
+// SIGTERM under the default configuration: exit status 0 and the data kept.
+
+type ledger struct {
+	promises  map[string]string // id -> creation fingerprint
+	completed map[string]string // id -> completion fingerprint
+	regs      map[string]string // registration id -> awaited promise
+	schedules map[string]bool
+	locks     map[string]string // resource -> execution (huge ttl)
+	tasksDone map[string]bool
+}
+
+func newLedger() *ledger {
+	return &ledger{promises: map[string]string{}, completed: map[string]string{}, regs: map[string]string{}, schedules: map[string]bool{}, locks: map[string]string{}, tasksDone: map[string]bool{}}
+}
+
+func fpCreate(p *vh.PRow) string {
+	return fmt.Sprintf("%d|%q|%s|%s", p.Timeout, p.ParamData, vh.JSONMap(p.ParamHeaders), vh.JSONMap(p.Tags))
+}
+func fpComplete(p *vh.PRow) string {
+	return fmt.Sprintf("%d|%q|%s", p.State, p.ValueData, vh.JSONMap(p.ValueHeaders))
+}
+
+// invariants evaluates the cross-table atomicity invariants of C06 on a snapshot.
+func invariants(s *vh.Snapshot) []string {
+	var bad []string
+	for id, cb := range s.C {
+		p := s.P[cb.PromiseId]
+		if p == nil || p.State != 1 {
+			bad = append(bad, fmt.Sprintf("atomicity:completed-promise-with-registration:registration %s is stored although its promise %s is not pending (completion was not all-or-nothing)", id, cb.PromiseId))
+		}
+	}
+	for id, p := range s.P {
+		tags := vh.JSONMap(p.Tags)
+		d := vh.RouteOracle(tags, []string{"resonate:invoke"})
+		if d.Routed && s.T["__invoke:"+id] == nil {
+			bad = append(bad, fmt.Sprintf("atomicity:routed-promise-without-task:promise %s routes (%s) but has no invocation task", id, p.Tags))
+		}
+		if p.State != 1 {
+			for tid, t := range s.T {
+				if t.Root == id && strings.HasPrefix(tid, "__invoke:") && (t.State == 1 || t.State == 2 || t.State == 4) {
+					bad = append(bad, fmt.Sprintf("atomicity:completed-promise-with-active-task:promise %s is completed but its task %s is still active", id, tid))
+				}
+			}
+		}
+	}
+	for id, sc := range s.S {
+		if sc.Last != nil {
+			if pid, ok := expandTmpl(sc.PromiseId, id, *sc.Last); ok && s.P[pid] == nil {
+				bad = append(bad, fmt.Sprintf("atomicity:schedule-advanced-without-promise:schedule %s advanced past %d but promise %s does not exist", id, *sc.Last, pid))
+			}
+		}
+	}
+	return bad
+}
+
+func expandTmpl(t, id string, occ int64) (string, bool) {
+	if strings.Count(t, "{{") != strings.Count(t, "{{.id}}")+strings.Count(t, "{{.timestamp}}") {
+		return "", false
+	}
+	return strings.ReplaceAll(strings.ReplaceAll(t, "{{.id}}", id), "{{.timestamp}}", fmt.Sprint(occ)), true
+}
+
+func (l *ledger) check(c *runCtx, s *vh.Snapshot, when string) {
+	for id, fp := range l.promises {
+		p := s.P[id]
+		if p == nil {
+			c.violate("ledger:acknowledged-promise-missing", fmt.Sprintf("%s: promise %s was acknowledged 201 but is not in the database", when, id), nil)
+			continue
+		}
+		if fpCreate(p) != fp {
+			c.violate("ledger:acknowledged-promise-changed", fmt.Sprintf("%s: promise %s differs from what was acknowledged: %s vs %s", when, id, fpCreate(p), fp), nil)
+		}
+	}
+	for id, fp := range l.completed {
+		p := s.P[id]
+		if p == nil || p.State == 1 {
+			c.violate("ledger:acknowledged-completion-missing", fmt.Sprintf("%s: the completion of %s was acknowledged but the stored promise is %v", when, id, p), nil)
+		} else if fpComplete(p) != fp {
+			c.violate("ledger:acknowledged-completion-changed", fmt.Sprintf("%s: completion of %s differs: stored %s, acknowledged %s", when, id, fpComplete(p), fp), nil)
+		}
+	}
+	for rid, pid := range l.regs {
+		if s.C[rid] == nil && s.T[rid] == nil {
+			c.violate("ledger:acknowledged-registration-missing", fmt.Sprintf("%s: registration %s on %s was acknowledged 201 but neither it nor its task is stored", when, rid, pid), nil)
+		}
+	}
+	for id := range l.schedules {
+		if s.S[id] == nil {
+			c.violate("ledger:acknowledged-schedule-missing", fmt.Sprintf("%s: schedule %s was acknowledged but is not stored", when, id), nil)
+		}
+	}
+	for res, ex := range l.locks {
+		if lk := s.L[res]; lk == nil || lk.ExecutionId != ex {
+			c.violate("ledger:acknowledged-lock-missing", fmt.Sprintf("%s: lock %s/%s was acknowledged but the stored row is %v", when, res, ex, lk), nil)
+		}
+	}
+	for id := range l.tasksDone {
+		if t := s.T[id]; t == nil || t.State != 8 {
+			c.violate("ledger:acknowledged-task-completion-missing", fmt.Sprintf("%s: completion of task %s was acknowledged, stored %v", when, id, t), nil)
+		}
+	}
+	for _, b := range invariants(s) {
+		i := strings.Index(b, ":")
+		j := strings.Index(b[i+1:], ":") + i + 1
+		c.violate(b[:j], when+": "+b[j+1:], nil)
+	}
+	c.rep.Hit("ledger.checks")
+	c.rep.HitN("ledger.facts-checked", len(l.promises)+len(l.completed)+len(l.regs)+len(l.schedules)+len(l.locks)+len(l.tasksDone))
+}
+
+type c06op struct {
+	name string
+	do   func(s *Server, l *ledger) // performs the request; records the acknowledgement in the ledger only after the reply arrived
+}
+
+func c06ops(r *rand.Rand, n int, tag string) []c06op {
+	var ops []c06op
+	far := time.Now().UnixMilli() + 3600_000
+	var ids []string
+	for i := 0; i < n; i++ {
+		i := i
+		switch x := r.Intn(14); {
+		case x < 5 || len(ids) == 0:
+			id := fmt.Sprintf("%sp%d", tag, i)
+			ids = append(ids, id)
+			tags := map[string]string{"k": fmt.Sprint(i)}
+			if r.Intn(2) == 0 {
+				tags["resonate:invoke"] = "poll://g/w"
+			}
+			to := far
+			if r.Intn(4) == 0 {
+				to = time.Now().UnixMilli() + int64(200+r.Intn(1500))
+			}
+			body := map[string]any{"id": id, "timeout": to, "tags": tags, "param": map[string]any{"data": []byte(fmt.Sprintf("param-%d", i)), "headers": map[string]string{"h": fmt.Sprint(i)}}}
+			ops = append(ops, c06op{"create " + id, func(s *Server, l *ledger) {
+				if rp := s.JSON("POST", "/promises", nil, body); rp.Err == nil && rp.Status == 201 {
+					l.promises[id] = fmt.Sprintf("%d|%q|%s|%s", to, []byte(fmt.Sprintf("param-%d", i)), map[string]string{"h": fmt.Sprint(i)}, tags)
+				}
+			}})
+		case x < 8:
+			id := ids[r.Intn(len(ids))]
+			val := fmt.Sprintf("value-%d", i)
+			st := []string{"RESOLVED", "REJECTED", "REJECTED_CANCELED"}[r.Intn(3)]
+			code := map[string]int{"RESOLVED": 2, "REJECTED": 4, "REJECTED_CANCELED": 8}[st]
+			ops = append(ops, c06op{"complete " + id, func(s *Server, l *ledger) {
+				if rp := s.JSON("PATCH", "/promises/"+id, nil, map[string]any{"state": st, "value": map[string]any{"data": []byte(val)}}); rp.Err == nil && rp.Status == 201 {
+					l.completed[id] = fmt.Sprintf("%d|%q|%s", code, []byte(val), map[string]string{})
+				}
+			}})
+		case x < 10:
+			id := ids[r.Intn(len(ids))]
+			root := fmt.Sprintf("%sroot%d", tag, i)
+			ops = append(ops, c06op{"callback " + id, func(s *Server, l *ledger) {
+				if rp := s.JSON("POST", "/callbacks", nil, map[string]any{"Id": "x", "promiseId": id, "rootPromiseId": root, "timeout": far, "recv": "poll://g/w"}); rp.Err == nil && rp.Status == 201 {
+					l.regs["__resume:"+root+":"+id] = id
+				}
+			}})
+		case x < 11:
+			id := ids[r.Intn(len(ids))]
+			sub := fmt.Sprintf("s%d", i)
+			ops = append(ops, c06op{"subscribe " + id, func(s *Server, l *ledger) {
+				if rp := s.JSON("POST", "/subscriptions", nil, map[string]any{"Id": sub, "promiseId": id, "timeout": far, "recv": "poll://g/w"}); rp.Err == nil && rp.Status == 201 {
+					// a notification task is finished and gone from "init" quickly; it stays stored
+					l.regs["__notify:"+id+":"+sub] = id
+				}
+			}})
+		case x < 12:
+			sid := fmt.Sprintf("%ssch%d", tag, i)
+			ops = append(ops, c06op{"schedule " + sid, func(s *Server, l *ledger) {
+				if rp := s.JSON("POST", "/schedules", nil, map[string]any{"id": sid, "cron": "* * * * * *", "promiseId": sid + ".{{.timestamp}}", "promiseTimeout": 500, "promiseTags": map[string]string{"resonate:invoke": "poll://g/w"}}); rp.Err == nil && rp.Status == 201 {
+					l.schedules[sid] = true
+				}
+			}})
+		case x < 13:
+			res := fmt.Sprintf("%sres%d", tag, i)
+			ops = append(ops, c06op{"lock " + res, func(s *Server, l *ledger) {
+				if rp := s.JSON("POST", "/locks/acquire", nil, map[string]any{"resourceId": res, "executionId": "e", "processId": "p", "ttl": 3600_000}); rp.Err == nil && rp.Status == 201 {
+					l.locks[res] = "e"
+				}
+			}})
+		default:
+			id := ids[r.Intn(len(ids))]
+			ops = append(ops, c06op{"claim+complete task of " + id, func(s *Server, l *ledger) {
+				rp := s.JSON("POST", "/tasks/claim", nil, map[string]any{"id": "__invoke:" + id, "counter": 1, "processId": "w", "ttl": 60000})
+				if rp.Err == nil && rp.Status == 201 {
+					if rc := s.JSON("POST", "/tasks/complete", nil, map[string]any{"id": "__invoke:" + id, "counter": 1}); rc.Err == nil && rc.Status == 201 {
+						l.tasksDone["__invoke:"+id] = true
+					}
+				}
+			}})
+		}
+	}
+	return ops
+}
+
+func runC06proc(c *runCtx) {
+	rounds := 16
+	if c.tier == "thorough" {
+		rounds = 320
+	}
+	for round := 0; round < rounds; round++ {
+		if round%c.nshards != c.shard {
+			continue
+		}
+		r := rand.New(rand.NewSource(vh.Mix(c.seed, "c06proc", round)))
+		c.logCur(map[string]any{"family": "c06-proc", "round": round})
+		srv := NewServer(filepath.Join(c.scratch, fmt.Sprintf("r%d", round)))
+		srv.FreshDB()
+		if err := srv.Start(); err != nil {
+			fmt.Println("CHECK-BROKEN cannot start the server:", err)
+			panic(err)
+		}
+		l := newLedger()
+		ops := c06ops(r, 30+r.Intn(30), fmt.Sprintf("r%d.", round))
+		kills := 0
+		lockedOnce := false
+		for k := 0; k < len(ops); k++ {
+			op := ops[k]
+			mode := r.Intn(9)
+			switch {
+			case mode == 0:
+				// kill while the k-th request is in flight
+				var wg sync.WaitGroup
+				wg.Add(1)
+				scratch := newLedger() // an in-flight request is not an acknowledgement unless its reply arrives
+				go func() { defer wg.Done(); op.do(srv, scratch) }()
+				time.Sleep(time.Duration(r.Intn(3000)) * time.Microsecond)
+				srv.Kill()
+				wg.Wait()
+				merge(l, scratch)
+				kills++
+			case mode == 2 && !lockedOnce:
+				// a fault exactly at COMMIT: another connection holds a read transaction on the file, so the
+				// store's COMMIT runs into the busy timeout and fails; the request must not be acknowledged
+				lockedOnce = true
+				release := holdReadLock(srv.db, 5600*time.Millisecond)
+				op.do(srv, l)
+				<-release
+				c.rep.Hit("commit-fault-injected")
+				c.rep.FaultPoints++
+				if snap, err := srv.Snapshot(); err == nil {
+					l.check(c, snap, fmt.Sprintf("round %d, after a failed COMMIT at op %d (%s)", round, k, op.name))
+				}
+				continue
+			case mode == 1:
+				op.do(srv, l)
+				srv.Kill() // right after the k-th acknowledgement
+				kills++
+			default:
+				op.do(srv, l)
+				continue
+			}
+			c.rep.FaultPoints++
+			c.rep.Evaluations++
+			c.rep.Nontriv(vh.Hash("c06proc", round, k, mode))
+			// before the restart: the file as the dead process left it
+			if snap, err := srv.Snapshot(); err == nil {
+				l.check(c, snap, fmt.Sprintf("round %d, after kill at op %d (%s), before restart", round, k, op.name))
+			}
+			if err := srv.Start(); err != nil {
+				c.violate("restart:failed", fmt.Sprintf("round %d: the server does not start again after a kill at op %d (%s): %v", round, k, op.name, err), nil)
+				break
+			}
+			// sometimes kill again during recovery
+			if r.Intn(4) == 0 {
+				time.Sleep(time.Duration(r.Intn(200)) * time.Millisecond)
+				srv.Kill()
+				kills++
+				c.rep.FaultPoints++
+				if err := srv.Start(); err != nil {
+					c.violate("restart:failed", fmt.Sprintf("round %d: the server does not start again after a second kill: %v", round, err), nil)
+					break
+				}
+			}
+			time.Sleep(300 * time.Millisecond)
+			if ok, why := srv.Healthy(); !ok {
+				c.violate("restart:unhealthy", fmt.Sprintf("round %d: after restart the server is not healthy: %s :: %s", round, why, srv.LogTail()), nil)
+				break
+			}
+			if snap, err := srv.Snapshot(); err == nil {
+				l.check(c, snap, fmt.Sprintf("round %d, after kill at op %d (%s) and restart", round, k, op.name))
+			}
+		}
+		// background processing resumes from the stored state: short-timeout promises get timed out
+		time.Sleep(2200 * time.Millisecond)
+		if snap, err := srv.Snapshot(); err == nil {
+			now := time.Now().UnixMilli()
+			for id, p := range snap.P {
+				if p.State == 1 && p.Timeout < now-1500 {
+					c.violate("recovery:promise-not-timed-out", fmt.Sprintf("round %d: promise %s (timeout %d) is still pending %d ms after its deadline although the server has been running", round, id, p.Timeout, now-p.Timeout), nil)
+				}
+			}
+			l.check(c, snap, fmt.Sprintf("round %d, end of workload", round))
+		}
+		// graceful stop with the default configuration keeps the data
+		before, _ := srv.Snapshot()
+		srv.Term()
+		if !srv.WaitExit(20 * time.Second) {
+			c.violate("sigterm:no-exit", fmt.Sprintf("round %d: the server did not exit within 20 s of SIGTERM", round), nil)
+			srv.Kill()
+		} else if code := srv.ExitCode(); code != 0 {
+			c.violate("sigterm:exit-status", fmt.Sprintf("round %d: exit status %d after SIGTERM :: %s", round, code, srv.LogTail()), nil)
+		}
+		after, err := srv.Snapshot()
+		if err != nil {
+			c.violate("sigterm:data-lost", fmt.Sprintf("round %d: the database cannot be read after a graceful stop: %v", round, err), nil)
+		} else {
+			l.check(c, after, fmt.Sprintf("round %d, after SIGTERM", round))
+			if before != nil && len(after.P) < len(before.P) {
+				c.violate("sigterm:data-lost", fmt.Sprintf("round %d: %d promises before SIGTERM, %d after", round, len(before.P), len(after.P)), nil)
+			}
+		}
+		c.rep.Hit("rounds")
+		c.rep.HitN("kills", kills)
+		if len(c.rep.Samples) < 2 {
+			var names []string
+			for _, o := range ops[:min(8, len(ops))] {
+				names = append(names, o.name)
+			}
+			b, _ := json.Marshal(names)
+			c.rep.Sample(map[string]any{"round": round, "first_ops": string(b), "kills": kills, "acknowledged_facts": len(l.promises) + len(l.completed) + len(l.regs) + len(l.schedules) + len(l.locks) + len(l.tasksDone)})
+		}
+		srv.Close()
+	}
+}
+
+func merge(dst, src *ledger) {
+	for k, v := range src.promises {
+		dst.promises[k] = v
+	}
+	for k, v := range src.completed {
+		dst.completed[k] = v
+	}
+	for k, v := range src.regs {
+		dst.regs[k] = v
+	}
+	for k, v := range src.schedules {
+		dst.schedules[k] = v
+	}
+	for k, v := range src.locks {
+		dst.locks[k] = v
+	}
+	for k, v := range src.tasksDone {
+		dst.tasksDone[k] = v
+	}
+}
+
+// holdReadLock keeps a read transaction open on the database file for d.
+func holdReadLock(path string, d time.Duration) <-chan bool {
+	done := make(chan bool, 1)
+	db, err := sql.Open("sqlite3", "file:"+path+"?mode=ro&_busy_timeout=1000")
+	if err != nil {
+		done <- false
+		return done
+	}
+	tx, err := db.Begin()
+	if err != nil {
+		db.Close()
+		done <- false
+		return done
+	}
+	var n int
+	_ = tx.QueryRow("SELECT count(*) FROM promises").Scan(&n)
+	go func() {
+		time.Sleep(d)
+		_ = tx.Rollback()
+		db.Close()
+		done <- true
+	}()
+	return done
+}
